@@ -83,6 +83,28 @@ def traced(f, *a):
         return f(*a)
 
 
+def inplace_history(sh, sh2, pts):
+    """call with the arrays of `sh`, overwrite the very same array objects with the values of `sh2`
+    (same kind, same array shapes), call again, and compare with a call on fresh arrays of `sh2`:
+    a result cached per array object (identity) or a stale intermediate shows up as a difference"""
+    f, args = call_args(sh, pts)
+    f(*args)
+    _, args2 = call_args(sh2, pts)
+    call = []
+    for a, b in zip(args, args2):
+        if isinstance(a, np.ndarray):
+            if a.shape != np.asarray(b).shape:
+                return None
+            a[...] = b
+            call.append(a)              # the SAME object, new content
+        else:
+            call.append(b)              # scalars are passed by value
+    got = np.asarray(f(*call))
+    _, fresh_args = call_args(sh2, pts)
+    want = np.asarray(f(*fresh_args))
+    return dict(same=bool(np.array_equal(got, want)), got=[bool(x) for x in got[:8]], want=[bool(x) for x in want[:8]])
+
+
 def run_case(case):
     out = {}
     sh = case["shape"]
@@ -109,6 +131,14 @@ def run_case(case):
         out["exc_msg"] = str(e)[:300]
         out["tb"] = traceback.format_exc()[-1200:]
         return out
+    if case.get("shape2") is not None:
+        try:
+            sh2 = case["shape2"]
+            if sh2["kind"] == "mesh":
+                sh2 = dict(sh2, triangles=sh["triangles"])
+            out["inplace"] = traced(inplace_history, sh, sh2, case["points"])
+        except BaseException as e:  # noqa
+            out["inplace_exc"] = f"{type(e).__name__}: {str(e)[:200]}"
     try:
         f = distance_fn(sh)
         if f is not None:
